@@ -36,7 +36,7 @@ type l2Node struct {
 	Known   bool `json:"known"`
 	Cond    int  `json:"cond"` // 0 ok, 1 NetworkUnavailable, 2 exclude label, 3 both
 	Sel     int  `json:"sel"`  // 0 not selected, 1 selected by adv1, 2 by adv2, 3 by both
-	EP      int  `json:"ep"`   // 0 none, 1 ready=true, 2 ready=nil, 3 ready=false serving=true, 4 ready=false serving=false, 5 ready=false serving=nil
+	EP      int  `json:"ep"`   // 0 none, 1 ready=true, 2 ready=nil, 3 ready=false serving=true, 4 ready=false serving=false, 5 ready=false serving=nil, 6 terminating but serving, 7 two pods on the node: stopped then ready, 8 ready then stopped
 }
 
 type l2View struct {
@@ -57,7 +57,7 @@ type l2View struct {
 
 var l2NodeNames = []string{"n1", "n2", "n3", "n4", "n5"}
 
-func epCanServe(ep int) bool { return ep == 1 || ep == 2 || ep == 3 }
+func epCanServe(ep int) bool { return ep == 1 || ep == 2 || ep == 3 || ep == 6 || ep == 7 || ep == 8 }
 
 func (v *l2View) eligible() map[string]bool {
 	anyEP := v.ExtraEP == 1
@@ -151,6 +151,18 @@ func (v *l2View) build() (*config.Pool, map[string]*v1.Node, []discovery.Endpoin
 				ep.Conditions.Ready, ep.Conditions.Serving = ptr.To(false), ptr.To(false)
 			case 5:
 				ep.Conditions.Ready = ptr.To(false)
+			case 6:
+				ep.Conditions.Ready, ep.Conditions.Serving, ep.Conditions.Terminating = ptr.To(false), ptr.To(true), ptr.To(true)
+			case 7, 8:
+				stopped := discovery.Endpoint{Addresses: []string{fmt.Sprintf("10.244.1.%d", i+1)}, NodeName: ptr.To(name),
+					Conditions: discovery.EndpointConditions{Ready: ptr.To(false), Serving: ptr.To(false), Terminating: ptr.To(true)}}
+				ep.Conditions.Ready = ptr.To(true)
+				if n.EP == 7 {
+					eps = append(eps, stopped, ep)
+				} else {
+					eps = append(eps, ep, stopped)
+				}
+				continue
 			}
 			eps = append(eps, ep)
 		}
@@ -401,6 +413,16 @@ func TestVerif_C04(t *testing.T) {
 			rec(append(nodes, st))
 		}
 	}
+	rec(nil)
+	// endpoint product: nodes that are alive, known and healthy; every selection x endpoint layouts including a pod
+	// that is terminating but serving and two pods on one node in both listing orders
+	nodeStates = nil
+	for _, sel := range []int{0, 1} {
+		for _, ep := range []int{0, 1, 4, 6, 7, 8} {
+			nodeStates = append(nodeStates, l2Node{true, true, 0, sel, ep})
+		}
+	}
+	res.Info["node_states_endpoint_product"] = len(nodeStates)
 	rec(nil)
 	if thorough {
 		nodeStates = mkStates([]int{0, 1, 2, 3}, []int{0, 1, 2, 3, 4, 5})
